@@ -36,6 +36,7 @@ func minArgs(v ssa.Value) []ssa.Value {
 func checkC16(c *Ctx, r *Report, tier string) {
 	round5(c, r, "C16")
 	round6(c, r, "C16")
+	round7(c, r, "C16")
 	r.Rule("C16.R1", "no aliasing between partitions: a slice stored into an element of the placement result inside a loop is freshly allocated in that iteration (make+copy, append onto nil/fresh, or a fresh membership call), never a sub-slice of a buffer rewritten by the same loop", 1)
 	r.Rule("C16.R2", "count: the stored slice has length min(len(members), replication factor) and nothing else", 1)
 	r.Rule("C16.R3", "members, distinct: the buffer comes from Conn.NodeIds() (keys of the address map); its only element writes are a pure two-index swap inside the shuffle callback; the membership call returns a fresh slice; the address book (= the membership) is written only by its legitimate writers", 4)
@@ -381,6 +382,7 @@ func describeVal(v ssa.Value) string {
 func checkC17(c *Ctx, r *Report, tier string) {
 	round5(c, r, "C17")
 	round6(c, r, "C17")
+	round7(c, r, "C17")
 	r.Rule("C17.R1", "no loop-variable capture by a goroutine (language version < 1.22): a closure started with `go` inside a loop must not reference the cell of a variable that the loop re-assigns", 1)
 	r.Rule("C17.R2", "once, on exactly one branch: in the loop over the partitions each iteration either adds the local item count and byte size to the two accumulators or spawns exactly one remote lookup which adds the two response fields", 3)
 	r.Rule("C17.R3", "failure fails the call: every error branch of the remote worker sends the error; the collector returns an error for a non-nil message and for a done context; PartitionInfo refuses when the node does not host the partition", 4)
